@@ -18,7 +18,12 @@ Parts
          Database.generate_draws.
   q      the quantile transform draws.get_normal_wichura_draws(uniform_numbers=u) on an exhaustive grid
          u = (k + theta)/2^m, all tails 2^-j and 1 - 2^-j, and the ulp-neighbourhoods of every branch point,
-         against a certified reference quantile (vf.ref_draws.norm_ppf), cross-checked with scipy.special.ndtri.
+         against a certified reference quantile (vf.ref_draws.norm_ppf), cross-checked with scipy.special.ndtri; plus the
+         regular probability grids k/20, k/40, k/200, k/1000 (the doubles of decimal literals: 0.45, 0.425, 0.075 ... sit
+         bit for bit on decimal limits between pieces).  An inaccurate point is keyed by its region and by whether the
+         delivered number is the value of the published AS241 pieces under the piece selection |u| <= 0.45 of the open
+         finding (key kept) or some other number ('...|not-the-as241-value'), so that no other defect of the transform
+         hides behind the open finding.
   hskip  entries that advertise a base but no skip: one and the same skip must fit every size.
   hd     draws.get_halton_draws directly: more bases / skips / symmetric / shuffled (owned shuffle).
   lhs    draws.get_latin_hypercube_draws / get_antithetic directly with explicit uniform numbers.
@@ -33,7 +38,13 @@ Parts
          the list of names x every insertion order of the dictionary of types x an additional dictionary entry that is
          not asked for (none / inserted first / last), through Database.generate_draws and through the library's own
          caller (a formula of bioDraws terms handed to IdManager, which sorts the names): the slice of every variable
-         must hold the draws of the type requested for THAT variable.  Every answer of every step is checked against
+         must hold the draws of the type requested for THAT variable; ureg: histories of 1..2 (thorough 3) registrations
+         of user-defined generators on ONE Database (valid name / name differing by case only / empty / the reserved name
+         of the entry requested afterwards / another reserved name / valid + reserved in both insertion orders x old
+         tuple format or RandomNumberGeneratorTuple x set_random_number_generators or the deprecated alias; accepted or
+         refused), the catalogue entry being requested through that Database after every registration (alone, or together
+         with a variable of the user's type when one is registered): it must deliver what it advertises and what the
+         catalogue generator delivers under the same RNG answers.  Every answer of every step is checked against
          every clause of part gen.  Each hist task runs in a worker process of its own, so that the process history
          of a case is exactly the task's histories before it (recorded in the case; replay re-executes them).
 """
@@ -54,7 +65,8 @@ LEVEL = 'exploration'
 TECHNIQUE = ('bounded exhaustive enumeration of catalogue entries x sizes x owned RNG answers (uniform tapes, all/'
              'family of shuffle permutations), of all request histories of depth 2 (3) over the catalogue x sizes x entry '
              'points x in-place caller actions in one process, of all requests of 2 (3) variables x orders of the names x '
-             'insertion orders of the dictionary of types x entry points (Database.generate_draws, IdManager), and of an exhaustive grid of uniform inputs for the quantile transform, '
+             'insertion orders of the dictionary of types x entry points (Database.generate_draws, IdManager), of all histories of 1-2 (3) '
+             'registrations of user-defined generators (valid / reserved names x formats x methods) on one Database before a request, and of an exhaustive grid of uniform inputs for the quantile transform, '
              'executed on the real generators and compared with an independent reference (exact radical inverse, '
              'strata, mirrors, certified erf/erfc Newton quantile)')
 RULE = ('gen: one case per (catalogue entry, N, R, uniform tape, shuffle answer); N x R from the tier\'s size grid '
@@ -66,7 +78,8 @@ RULE = ('gen: one case per (catalogue entry, N, R, uniform tape, shuffle answer)
         'through Database.generate_draws; non-trivial = N*R >= 2; distinct = distinct (entry, N, R, tape, answer). '
         'q: one case per (path, uniform input u): every u = (k+theta)/2^m (m = 16 quick / 19 thorough, theta by seed), '
         'every 2^-j (15 <= j <= 1020) and 1-2^-j (j <= 53) with small multiples, +-0..8 ulp and +-2^-j '
-        'neighbours of 0.075, 0.425, 0.45, 0.5, 0.55, 0.575, 0.925, e^-25, 1-e^-25 and a 399-point comb; the grid '
+        'neighbours of 0.075, 0.425, 0.45, 0.5, 0.55, 0.575, 0.925, e^-25, 1-e^-25, a 399-point comb and the regular grids '
+        'k/20, k/40, k/200, k/1000 (not shifted by the seed: the doubles of decimal literals); the grid '
         'through the flat path, tails/branch points also through the (N, R)-shaped and the antithetic path; all '
         'non-trivial. hskip: one case per (entry without advertised skip, N, R). hd: get_halton_draws for bases '
         '{2,3,5,7[,11,13]} x skips x sizes with N*R <= 20 (60) x symmetric x {unshuffled, shuffled with every answer '
@@ -93,7 +106,17 @@ RULE = ('gen: one case per (catalogue entry, N, R, uniform tape, shuffle answer)
         'requests of a task go to one Database per sample size; the slice of every variable must be what its entry '
         'delivers when asked alone under the same continuing RNG answers, for some order (of the k!) in which the '
         'generators consumed them (finding keys C11|history|db-path-variable-binding|..., C11|history|db-path-several-'
-        'variables|...). Every answer is checked with all the '
+        'variables|...). ureg: one case per prefix of a history of registrations of user-defined generators on one new '
+        'Database followed by the request of a catalogue entry through it; a registration = (dictionary in {MINE, entry '
+        'name in lower case, empty, the entry\'s own reserved name, the next entry\'s reserved name, MINE + reserved, '
+        'reserved + MINE}, format in {tuple, RandomNumberGeneratorTuple}, method in {set_random_number_generators, '
+        'setRandomNumberGenerators}) = 28 ops, the user generator returning a constant (7.0 / 0.5 by position) without '
+        'touching the RNG; depth 1: all 28 ops x 21 entries x sizes (quick (2,2), (3,4); thorough the 4 hist sizes); '
+        'depth 2: quick 14 x 14 ops (formats/methods (tuple, new), (named, old)), thorough all 28 x 28, x 21 entries at '
+        '(2,2); depth 3 (thorough): 7^3 dictionaries (tuple, new) x 21 entries at (2,2); the entry is requested after '
+        'EVERY registration, together with a variable of type MINE (alternating order of the names) when the last '
+        'accepted dictionary holds MINE (finding keys C11|history|<clause>|type=<entry>, C11|history|db-path|type=<entry>). '
+        'Every answer is checked with all the '
         'clauses of part gen (finding keys C11|history|<clause>|type=<entry>); distinct = distinct history prefix.')
 ASSUMPTIONS = [
     'biogeme.draws obtains randomness only through numpy.random.uniform and numpy.random.shuffle looked up on the '
@@ -119,6 +142,13 @@ ASSUMPTIONS = [
     'order counts the cases that needed another order than that of the slices); the numbering of the variables by '
     'IdManager is taken as delivered (IdManager.draws.indices), not checked here; IdManager is exercised without the '
     'engine (no formula is evaluated)',
+    'part ureg: whether a registration is accepted or refused is counted, not judged; the user generator is a constant '
+    'array that consumes no RNG answer; what generate_draws delivers for the user\'s own types is not checked (not the '
+    'statement\'s subject); other operations on the Database (panel, remove, ...) are not part of the histories',
+    'finding keys of the quantile clause: "is the value of the AS241 pieces under the piece selection |u| <= 0.45" is '
+    'decided with a transcription of the published algorithm (vf.ref_draws.as241, verified in every run against the '
+    'certified quantile to 5e-15 under the published selection) to 1e-14 (or 1e-4 of the own error of that value); this only chooses the key, whether a point '
+    'is a violation is decided by the certified reference alone',
     'a Latin-hypercube case in which a point lies within 1e-9 (in stratum units) of a stratum boundary is skipped and '
     'counted (skipped_fragile_stratum_boundary; arises only for the tape that contains 1e-12 and 1-1e-12)',
 ]
@@ -128,7 +158,9 @@ DETERMINISM_SLICE = 3
 _SEED = int(os.environ.get('VERIF_SEED', '0') or 0)
 TOL_STRUCT = 1e-12          # structural identities (same operations on both sides)
 TOL_Q = 3e-14               # quantile accuracy, relative to max(1, |z|)
-TOL_AS241 = 1e-12          # "is the value of the AS241 pieces" (same operations; numpy log/sqrt vs libm: a few ulp)
+TOL_AS241 = 1e-14          # "is the value of the AS241 pieces" (same operations in the same order; numpy log/sqrt vs
+#                            libm: measured <= 1.5e-15).  Kept below TOL_Q: a point that is off the reference by more than
+#                            TOL_Q and within TOL_AS241 of the AS241 value is a point where that AS241 value itself is off.
 MAX_UNADVERTISED_SKIP = 64
 
 # --------------------------------------------------------------------------- value alphabets (by seed)
@@ -385,7 +417,11 @@ def report_quantile(rec, errs, case, where):
     for u, z, zr, e in errs:
         if e > TOL_Q:
             model = R_.as241(u, 'abs_u_le_0.45')
-            explained = math.isfinite(z) and abs(z - model) <= TOL_AS241 * max(1.0, abs(model))
+            # "is that value": to TOL_AS241, or - where that value itself is far off the quantile, which is where the
+            # extrapolated pieces are ill-conditioned and numpy's log may differ from libm's in the last bit - to
+            # 1e-4 of its own error
+            explained = math.isfinite(z) and abs(z - model) <= max(TOL_AS241 * max(1.0, abs(model)),
+                                                                   1e-4 * abs(model - zr))
             bygroup.setdefault((R_.region(u), explained), []).append((u, z, zr, e, model))
     for (reg, explained), bad in bygroup.items():
         u, z, zr, e, model = bad[0]
@@ -477,6 +513,8 @@ def check_entry_case(rec, cat, name, n, r, tid, perm, cache, via_db=False, hist=
     def bad(clause, what, expected=None, observed=None, k=None):
         nonlocal ok_all
         ok_all = False
+        if hist is not None:
+            hist['clause_broken'] = True
         rec.violation(k or f'{pre}{clause}|type={name}', f'{name} ({adv["desc"]!r}) N={n} R={r} tape={tid} '
                       f'shuffle={perm}{where}: {what}', case, expected=expected, observed=observed)
 
@@ -648,8 +686,6 @@ def check_entry_case(rec, cat, name, n, r, tid, perm, cache, via_db=False, hist=
             bad('db-path', 'Database.generate_draws differs from the catalogue generator under the same RNG answers',
                 expected=vals[:5], observed=flat(t)[:5])
         rec.count('db_path_calls')
-    if hist is not None:
-        hist['ok'] = ok_all
     rec.case(nt, (key, digest(out)), outcome=(oc, ok_all))
     return vals
 
@@ -1354,7 +1390,7 @@ def _hist_ureg(rec, cat, u, task, hindex):
             rec.count('ureg_registered_user_type_unknown_to_generate_draws')
         if holder.get('two'):
             rec.count('ureg_requests_together_with_a_user_type')
-        if vals is None or not hist.get('ok'):
+        if vals is None or hist.get('clause_broken'):
             continue                                             # already reported under the clause it breaks
         # the same request put to the catalogue generator directly, under the same RNG answers
         o2, _, e2 = call_gen(cat[name][0], n, r, tid, perm)
